@@ -111,8 +111,11 @@ func c02Body(np int, vararg bool, body int) []Stat {
 		st = append(st, Return(rs...))
 	case 1: // returns ...
 		st = append(st, Emit(ps...), Return(Vararg()))
-	case 2: // compat arg table (vararg function that does not mention ...)
-		st = append(st, Emit(append(ps, Dot(Name("arg"), "n"), Index(Name("arg"), Num(1)), Index(Name("arg"), Num(2)))...), Return(Dot(Name("arg"), "n")))
+	case 2: // compat arg table (vararg function that does not mention ...): observed, then scribbled on —
+		// it is a fresh table for every call, so nothing of this may show in any later call
+		st = append(st, Emit(append(ps, Dot(Name("arg"), "n"), Index(Name("arg"), Num(1)), Index(Name("arg"), Num(2)), Dot(Name("arg"), "mark"))...),
+			Local1("n0", Dot(Name("arg"), "n")), Assign1(Dot(Name("arg"), "mark"), Str("scribble")), Assign1(Index(Name("arg"), Num(1)), Str("overwritten")), Assign1(Index(Name("arg"), Num(2)), Str("added")), Assign1(Dot(Name("arg"), "n"), Num(99)),
+			Return(Name("n0")))
 	case 3: // returns fixed three values
 		st = append(st, Emit(ps...), Return(Num(71), Num(72), Num(73)))
 	case 4: // returns nothing
